@@ -85,7 +85,12 @@ def _alarm(signum, frame):
 
 # ------------------------------------------------------------------------------------------------ trackers, mem:
 
-def make_collector():
+TRACKER_FORMS = ["plain", "sized", "boolish"]
+
+
+def make_collector(form="plain"):
+    """a collecting tracker.  `sized`: list-like, has __len__ (0 while nothing was reported); `boolish`: has a
+    __bool__ tied to its issues — both are falsy while empty, which must not make the loader discard them"""
     from pdtable.table_origin import InputIssueTracker
 
     class Collector(InputIssueTracker):
@@ -99,7 +104,18 @@ def make_collector():
         def issues(self):
             return self._issues
 
-    return Collector()
+    class SizedCollector(Collector):
+        def __len__(self):
+            return len(self._issues)
+
+        def __iter__(self):
+            return iter(self._issues)
+
+    class BoolishCollector(Collector):
+        def __bool__(self):
+            return bool(self._issues)
+
+    return {"plain": Collector, "sized": SizedCollector, "boolish": BoolishCollector}[form]()
 
 
 def make_mem(store, events):
@@ -224,6 +240,14 @@ def materialise(case, root: Path):
         else:
             p.write_text("not a startable file\n")
         m.file_id.append(new_id(str(p), "unreadable" if f["kind"] == "txt" else f["kind"]))
+    # the load identifier a file has while it is loaded: path@mtime (seconds)
+    import datetime
+    m.ident_at_load = {}
+    for f, fid in zip(case["files"], m.file_id):
+        if f["kind"] != "mem":
+            p = m.path_of[fid]
+            m.ident_at_load[p] = p + "@" + datetime.datetime.fromtimestamp(os.stat(p).st_mtime).isoformat(
+                timespec="seconds")
     return m
 
 
@@ -396,7 +420,7 @@ class Shared:
         return list(self.protocols.keys()) == ["mem"] and self.protocols["mem"] is self.mem_loader
 
 
-def run_impl(case, m, time_limit=20, shared=None, audit_prefix=None):
+def run_impl(case, m, time_limit=20, shared=None, audit_prefix=None, after_load=None):
     from pdtable.io.load import load_files
     from pdtable import BlockType
     install_hook()
@@ -411,7 +435,7 @@ def run_impl(case, m, time_limit=20, shared=None, audit_prefix=None):
         shared.store.clear()
         shared.store.update(m.mem_store)
     r.MemLocationFile = MemLocationFile
-    tracker = make_collector() if case["tracker"] == "collecting" else None
+    tracker = make_collector(case.get("tracker_form", "plain")) if case["tracker"] == "collecting" else None
     kwargs = dict(issue_tracker=tracker, allow_include=case["allow_include"])
     if case["root_folder"]:
         kwargs["root_folder"] = m.root
@@ -455,7 +479,19 @@ def run_impl(case, m, time_limit=20, shared=None, audit_prefix=None):
     events = list(events)
     r.events = events
     r.tracker = tracker
-    # ---- canonical form
+    if after_load is not None:
+        after_load()          # the environment moves on (files touched / deleted) before anything is inspected
+    try:
+        _canonical(case, m, r, events, tracker)
+        r.canon_error = None
+    except Exception as e:  # noqa — inspecting the blocks of a finished load must not raise
+        r.canon_error = repr(e)
+        r.canon = {"status": {"exc": "inspection:" + type(e).__name__}, "out": [], "reads": [], "issues": []}
+    return r
+
+
+def _canonical(case, m, r, events, tracker):
+    from pdtable import BlockType
     out = []
     for bt, b in r.blocks:
         o = {"ty": bt.name, "loc": None, "sheet": None, "row": None, "name": None, "lines": None, "history": None}
@@ -478,6 +514,7 @@ def run_impl(case, m, time_limit=20, shared=None, audit_prefix=None):
                     o["loc"] = -1          # a block of a file this input set does not contain
         if il is not None:
             o["loc"] = canon_location(m, il.file)[0]
+            o["ident"] = il.file.load_identifier
             o["sheet"], o["row"] = il.sheet_name, il.row
             o["history"] = canon_history(m, il.load_specification)
         out.append(o)
@@ -498,7 +535,6 @@ def run_impl(case, m, time_limit=20, shared=None, audit_prefix=None):
                 issues.append(["resolve", it.specification, src])
     r.canon = {"status": "runaway" if r.runaway else ("done" if r.exc is None else {"exc": r.exc}),
                "out": out, "reads": reads, "issues": issues}
-    return r
 
 
 def model_op(case, m, nodes, table, order):
@@ -1094,6 +1130,7 @@ def gen_cases(tier, seed, search=False):
                               start_pattern=None, tracker=tracker,
                               allow_include=crng.random() < 0.9, mem=mem, rich=False)
             case["gen"] = {"graph": sorted(es), "n": n}
+            case["tracker_form"] = crng.choice(TRACKER_FORMS)
             yield idx, case
             idx += 1
     # (b) random input sets
@@ -1143,6 +1180,7 @@ def random_case(crng, xlsx_share=0.2, force_mem=False):
                       allow_include=crng.random() < 0.85, mem=mem, extra_edges=extra, rich=True,
                       sheet_pattern=crng.choice([None, None, "in_", "(in|set)_"]), opts={"sibling": sibling})
     case["gen"] = {"random": True}
+    case["tracker_form"] = crng.choice(TRACKER_FORMS)
     r = crng.random()
     case["pattern_mode"] = "compiled" if r < 0.45 else "both" if (r < 0.5 and start is not None) else "start"
     return case
@@ -1174,7 +1212,8 @@ def short_case(case):
 def classify(case, impl, out):
     g = case.get("gen", {})
     out.count("gen:" + ("graph%d" % g["n"] if "graph" in g else "random"))
-    out.count("tracker:" + case["tracker"])
+    out.count("tracker:" + case["tracker"] +
+              (":" + case.get("tracker_form", "plain") if case["tracker"] == "collecting" else ""))
     out.count("root_folder:" + str(case["root_folder"]))
     out.count("allow_include:" + str(case["allow_include"]))
     out.count("mem:" + str(case["mem"]))
